@@ -679,4 +679,210 @@ theorem updatePacket_spec_abs (s : Store) (it : Iter) (p : List (Str × V)) (h :
         unfold Iter.doneIn
         rw [hrows]
 
+-- ---- whole call sequences on an open iterator ---------------------------------------------------------------------------------------
+
+open World in
+/-- any sequence of next / update / remove calls on an open iterator, with the code of every call and the packet of every
+    successful next -/
+def runCallsC (s : Store) (it : Iter) : List Call → Store × Iter × List (Code × Option (List (Str × V)))
+  | [] => (s, it, [])
+  | .next :: cs =>
+    let r := nextPacket s it
+    let t := runCallsC s r.1 cs
+    (t.1, t.2.1, (codeOf r.2, r.2.toOption) :: t.2.2)
+  | .update p :: cs =>
+    let r := updatePacket s it p
+    let t := runCallsC r.1 it cs
+    (t.1, t.2.1, (codeOf r.2, none) :: t.2.2)
+  | .remove :: cs =>
+    let r := removePacket s it
+    let t := runCallsC r.1 r.2.1 cs
+    (t.1, t.2.1, (codeOf r.2.2, none) :: t.2.2)
+
+open World in
+/-- the same call sequence on the documented model -/
+def specCalls (a : AState) (ai : AIter) : List Call → AState × AIter × List (Code × Option (List (Str × V)))
+  | [] => (a, ai, [])
+  | .next :: cs =>
+    let r := specItNext a ai
+    let t := specCalls a r.1 cs
+    (t.1, t.2.1, (codeOf r.2, r.2.toOption) :: t.2.2)
+  | .update p :: cs =>
+    let r := specItUpdate a ai p
+    let t := specCalls r.1 ai cs
+    (t.1, t.2.1, (codeOf r.2, none) :: t.2.2)
+  | .remove :: cs =>
+    let r := specItRemove a ai
+    let t := specCalls r.1 r.2.1 cs
+    (t.1, t.2.1, (codeOf r.2.2, none) :: t.2.2)
+
+def Call.keysOk : Call → Bool
+  | .update p => keysDistinct p
+  | _ => true
+
+/-- every sequence of next / update / remove calls on a tied iterator inside its transaction runs on the documented model exactly
+    as on the store: same final content, same final iterator, and for every call the same code and (for next) the same packet -/
+theorem runCalls_refines : ∀ (cs : List Call) (s : Store) (it : Iter) (d0 : Db), GoodS s → IterOk it s.db → s.txn = some d0 →
+    cs.all Call.keysOk = true →
+    absS (runCallsC s it cs).1.db = (specCalls (absS s.db) (absIter it s) cs).1 ∧
+    absIter (runCallsC s it cs).2.1 (runCallsC s it cs).1 = (specCalls (absS s.db) (absIter it s) cs).2.1 ∧
+    (runCallsC s it cs).2.2 = (specCalls (absS s.db) (absIter it s) cs).2.2 ∧
+    (runCallsC s it cs).1.txn = some d0 ∧ IterOk (runCallsC s it cs).2.1 (runCallsC s it cs).1.db ∧ GoodS (runCallsC s it cs).1
+  | [], s, it, d0, hg, hok, ht, _ => ⟨rfl, rfl, rfl, ht, hok, hg⟩
+  | .next :: cs, s, it, d0, hg, hok, ht, hk => by
+    have hs : s.autocommit = false := by simp [Store.autocommit, ht]
+    simp only [List.all_cons, Bool.and_eq_true] at hk
+    obtain ⟨h1, h2⟩ := nextPacket_spec_abs s it hok hg.db hs
+    have ih := runCalls_refines cs s (nextPacket s it).1 d0 hg (nextPacket_iterOk s it s.db hok) ht hk.2
+    unfold runCallsC specCalls
+    simp only []
+    rw [← h1, ← h2]
+    exact ⟨ih.1, ih.2.1, by rw [ih.2.2.1], ih.2.2.2.1, ih.2.2.2.2.1, ih.2.2.2.2.2⟩
+  | .update p :: cs, s, it, d0, hg, hok, ht, hk => by
+    simp only [List.all_cons, Bool.and_eq_true] at hk
+    obtain ⟨h1, h2, h3⟩ := updatePacket_spec_abs s it p hok hg.db d0 ht hk.1
+    have ht' : (updatePacket s it p).1.txn = some d0 := by rw [updatePacket_txn]; exact ht
+    have hg' := updatePacket_goodS hg it p hok.attached
+    have hok' := updatePacket_iterOk s it p hok
+    have ih := runCalls_refines cs (updatePacket s it p).1 it d0 hg' hok' ht' hk.2
+    unfold runCallsC specCalls
+    simp only []
+    rw [← h1, ← h2, ← h3]
+    exact ⟨ih.1, ih.2.1, by rw [ih.2.2.1], ih.2.2.2.1, ih.2.2.2.2.1, ih.2.2.2.2.2⟩
+  | .remove :: cs, s, it, d0, hg, hok, ht, hk => by
+    simp only [List.all_cons, Bool.and_eq_true] at hk
+    obtain ⟨h1, h2, h3⟩ := removePacket_spec_abs s it hok hg.db d0 ht
+    have ht' : (removePacket s it).1.txn = some d0 := by rw [removePacket_txn]; exact ht
+    have hg' := removePacket_goodS hg it hok.attached hok.scalar
+    have hok' := removePacket_iterOk s it hg.db.inv hok
+    have ih := runCalls_refines cs (removePacket s it).1 (removePacket s it).2.1 d0 hg' hok' ht' hk.2
+    unfold runCallsC specCalls
+    simp only []
+    rw [← h1, ← h2, ← h3]
+    exact ⟨ih.1, ih.2.1, by rw [ih.2.2.1], ih.2.2.2.1, ih.2.2.2.2.1, ih.2.2.2.2.2⟩
+
+-- ---- open / close / abort ---------------------------------------------------------------------------------------------------------------
+
+theorem loopValues_nil_iff (d : Db) (cid ln : Nat) : d.loopValues cid ln = [] ↔ d.loopRows cid ln = [] := by
+  constructor
+  · intro h
+    cases hr : d.loopRows cid ln with
+    | nil => rfl
+    | cons r rs =>
+      exfalso
+      have : r ∈ d.loopRows cid ln := by rw [hr]; exact List.mem_cons_self
+      obtain ⟨w, hw, hwc, hwa, _⟩ := (mem_loopRows_iff _ _ _ _).mp this
+      have := mem_foldr_insertByRow_of_mem _ w (List.mem_filter.mpr ⟨hw, by simp [hwc, hwa]⟩ :
+        w ∈ d.values.filter (fun v => v.cid == cid && (d.loopItems cid ln).any (fun i => i.name == v.name)))
+      have h' : d.loopValues cid ln = (d.values.filter (fun v => v.cid == cid && (d.loopItems cid ln).any (fun i => i.name == v.name))).foldr Db.insertByRow [] := rfl
+      rw [h'] at h; rw [h] at this; cases this
+  · intro h
+    cases hv : d.loopValues cid ln with
+    | nil => rfl
+    | cons v vs =>
+      exfalso
+      have hvm : v ∈ d.loopValues cid ln := by rw [hv]; exact List.mem_cons_self
+      obtain ⟨hm, hk⟩ := List.mem_filter.mp (mem_foldr_insertByRow _ v hvm)
+      simp only [Bool.and_eq_true, beq_iff_eq] at hk
+      have : v.rowNum ∈ d.loopRows cid ln := (mem_loopRows_iff _ _ _ _).mpr ⟨v, hm, hk.1, hk.2, rfl⟩
+      rw [h] at this; cases this
+
+/-- cif_loop_get_packets outside any transaction, through a valid handle: the documented model's answer — CIF_INVALID_HANDLE for a
+    loop without items, CIF_EMPTY_LOOP for a loop without packets (the store is what it was), else an iterator before the first
+    packet, nothing passed, no current packet, remembering the CIF as it is now -/
+theorem getPackets_spec_abs (s : Store) (l : LH) (hg : Good s.db) (hv : l.validB s.db = true) (hac : s.autocommit = true) :
+    match (getPackets s l).2 with
+    | .ok it => specItOpen (absS s.db) l = .ok (absIter it (getPackets s l).1) ∧ (getPackets s l).1.db = s.db ∧
+                (getPackets s l).1.txn = some s.db ∧ IterOk it s.db
+    | .error c => specItOpen (absS s.db) l = .error c ∧ (getPackets s l).1 = s := by
+  have hinv := hg.inv
+  obtain ⟨x, hx, k1, k2, k3⟩ := LH.valid_of_validB hv
+  have hfind : (absS s.db).findLoop l.cid l.loopNum = some (absALoop s.db x) := by rw [← k1, ← k2]; exact findLoop_valid s.db hinv x hx
+  have hn : (getNames s l).1 = s := (getNames_same s l).eq_of_autocommit hac
+  have hnr : (getNames s l).2 = (match s.db.loopItems l.cid l.loopNum with
+      | [] => .error CIF_INVALID_HANDLE
+      | is => .ok (is.map (fun i => (i.name, i.nameOrig)))) := by
+    unfold getNames; rw [nestRO_snd]; cases s.db.loopItems l.cid l.loopNum <;> rfl
+  unfold specItOpen
+  rw [hfind]
+  simp only []
+  have hitems : (absALoop s.db x).items = (s.db.loopItems l.cid l.loopNum).map (fun i => (i.name, i.nameOrig)) := by rw [← k1, ← k2]; rfl
+  have hpk : (absALoop s.db x).packets.isEmpty = (s.db.loopRows l.cid l.loopNum).isEmpty := by
+    rw [packets_absALoop, k1, k2]; cases s.db.loopRows l.cid l.loopNum <;> rfl
+  rw [hitems, hpk]
+  cases hli : s.db.loopItems l.cid l.loopNum with
+  | nil =>
+    have hgp : getPackets s l = (s, .error CIF_INVALID_HANDLE) := by
+      unfold getPackets
+      cases hgn : getNames s l with
+      | mk s1 r =>
+        rw [hgn] at hn hnr; simp only [] at hn hnr; subst hn
+        rw [hli] at hnr; simp only [] at hnr; subst hnr; rfl
+    rw [hgp]; simp
+  | cons i0 is0 =>
+    have hb : s.begin = some { s with txn := some s.db } := by unfold Store.begin; simp [hac]
+    cases hrows : s.db.loopRows l.cid l.loopNum with
+    | nil =>
+      have hlv := (loopValues_nil_iff s.db l.cid l.loopNum).mpr hrows
+      have hgp : getPackets s l = (s, .error CIF_EMPTY_LOOP) := by
+        unfold getPackets
+        cases hgn : getNames s l with
+        | mk s1 r =>
+          rw [hgn] at hn hnr; simp only [] at hn hnr; subst hn
+          rw [hli] at hnr; simp only [] at hnr; subst hnr
+          simp only [hb]
+          have : Db.loopValues ({ s1 with txn := some s1.db } : Store).db l.cid l.loopNum = [] := hlv
+          rw [this]
+          simp only []
+          rw [begin_rollback' s1 _ hb]
+      rw [hgp]; simp
+    | cons r0 rs0 =>
+      have hlvne : s.db.loopValues l.cid l.loopNum ≠ [] := by
+        intro h0; have := (loopValues_nil_iff s.db l.cid l.loopNum).mp h0; rw [hrows] at this; cases this
+      cases hgp : getPackets s l with
+      | mk s2 r =>
+        have hgp' := hgp
+        unfold getPackets at hgp
+        cases hgn : getNames s l with
+        | mk s1 rn =>
+          rw [hgn] at hn hnr hgp; simp only [] at hn hnr hgp; subst hn
+          rw [hli] at hnr; simp only [] at hnr; subst hnr
+          simp only [hb] at hgp
+          cases hlv : Db.loopValues ({ s1 with txn := some s1.db } : Store).db l.cid l.loopNum with
+          | nil => exact absurd hlv hlvne
+          | cons v vs =>
+            rw [hlv] at hgp
+            simp only [Prod.mk.injEq] at hgp
+            obtain ⟨hs2, hr⟩ := hgp
+            subst hs2; subst hr
+            simp only []
+            obtain ⟨_, hok⟩ := getPackets_iterOk s1 _ l _ (LH.valid_of_validB hv) hinv hgp'
+            refine ⟨?_, by first | rfl | trivial, by first | rfl | trivial, hok⟩
+            try simp
+            -- nothing passed: every row of the loop is pending
+            unfold absIter
+            simp only []
+            congr 1
+            unfold Iter.doneIn Iter.pend
+            simp only []
+            rw [← hlv]
+            have : (s1.db.loopRows l.cid l.loopNum).filter (fun q => !(Db.loopValues ({ s1 with txn := some s1.db } : Store).db l.cid l.loopNum).any (fun x => x.rowNum == q)) = [] := by
+              rw [List.filter_eq_nil_iff]
+              intro q hq
+              obtain ⟨w, hw, hwc, hwa, hwr⟩ := (mem_loopRows_iff _ _ _ _).mp hq
+              have hwm : w ∈ s1.db.loopValues l.cid l.loopNum :=
+                mem_foldr_insertByRow_of_mem _ w (List.mem_filter.mpr ⟨hw, by simp [hwc, hwa]⟩)
+              have : (s1.db.loopValues l.cid l.loopNum).any (fun x => x.rowNum == q) = true := List.any_eq_true.mpr ⟨w, hwm, by simp [hwr]⟩
+              simp [this]
+            rw [this]; rfl
+
+/-- cif_pktitr_close inside the iterator's transaction: the content stays what the calls made it; cif_pktitr_abort: the content is
+    what it was when the iterator was created (`AIter.start`); either way the CIF is in autocommit mode again -/
+theorem closeAbort_abs (s : Store) (it : Iter) (d0 : Db) (ht : s.txn = some d0) :
+    absS (closeIter s).1.db = absS s.db ∧ (closeIter s).2 = .ok () ∧ (closeIter s).1.autocommit = true ∧
+    absS (abortIter s).1.db = (absIter it s).start ∧ (abortIter s).2 = .ok () ∧ (abortIter s).1.autocommit = true := by
+  have hs : s.autocommit = false := by simp [Store.autocommit, ht]
+  refine ⟨?_, ?_, ?_, ?_, ?_, ?_⟩ <;>
+    simp [closeIter, abortIter, Store.commit, Store.rollback, Store.outermost, Store.autocommit, hs, ht, absIter]
+
 end CifModel.Store
